@@ -216,6 +216,8 @@ fn warmup_diagnostics_blocking(db: &dyn CloneableDatabase, crates: Vec<CrateInpu
             // Warming up the modules to speed up `crate_modules` call.
             let db = discovery_db.as_ref();
             db.crates().into_par_iter().for_each_with(db.dyn_clone(), |db, crate_id| {
+                #[cfg(feature = "verif")]
+                cairo_lang_utils::verif::yield_point("warmup.crate_discovery");
                 warmup_module_discovery_blocking(db.as_ref(), ModuleId::CrateRoot(*crate_id));
             });
         },
@@ -226,6 +228,8 @@ fn warmup_diagnostics_blocking(db: &dyn CloneableDatabase, crates: Vec<CrateInpu
                 db.crate_modules(crate_id).into_par_iter().for_each_with(
                     db.dyn_clone(),
                     |db, module_id| {
+                        #[cfg(feature = "verif")]
+                        cairo_lang_utils::verif::yield_point("warmup.module_diagnostics");
                         for file_id in
                             db.module_files(*module_id).unwrap_or_default().iter().copied()
                         {
@@ -249,6 +253,8 @@ fn warmup_module_discovery_blocking(db: &dyn CloneableDatabase, module_id: Modul
         return;
     };
     submodules.into_par_iter().for_each_with(db.dyn_clone(), |db, submodule_id| {
+        #[cfg(feature = "verif")]
+        cairo_lang_utils::verif::yield_point("warmup.submodule_discovery");
         warmup_module_discovery_blocking(db.as_ref(), ModuleId::Submodule(*submodule_id));
     });
 }
@@ -268,6 +274,8 @@ fn warmup_functions_blocking<'db>(
             db: &dyn CloneableDatabase,
             func_id: ConcreteFunctionWithBodyId<'db>,
         ) {
+            #[cfg(feature = "verif")]
+            cairo_lang_utils::verif::yield_point("warmup.function");
             if processed_function_ids.lock().unwrap().insert(func_id.as_intern_id()) {
                 let Ok(function) = db.function_with_body_sierra(func_id) else {
                     return;
